@@ -7,7 +7,8 @@ loop, YY_NUM_RULES, the start-condition numbering, and every `case N:` action bo
 canonical text (tools/ccanon.py, against the reference texts of tools/action_texts.py) into the closed datatype
 LC.ScanAction.action (AUnknown otherwise).  The file is
 rewritten only when its content changes."""
-import os, re, sys
+import os, re, sys, json
+sys.path.insert(0, os.path.dirname(os.path.abspath(__file__)))
 
 REPO = os.environ.get("REPO", "/repo")
 VERIF = os.path.dirname(os.path.dirname(os.path.abspath(__file__)))
@@ -28,6 +29,62 @@ def table(src, name):
     if len(vals) != int(m.group(1)):
         die("table %s: %d values, declared %s" % (name, len(vals), m.group(1)))
     return vals
+
+
+SKEL_REF = os.path.join(VERIF, "tools", "skel_ref", "flex_skeleton.json")
+SKEL_FUNCTIONS = ["yy_get_next_buffer", "yy_get_previous_state", "yy_try_NUL_trans", "yyrestart", "yy_switch_to_buffer",
+                  "yy_load_buffer_state", "yy_create_buffer", "yy_delete_buffer", "yy_init_buffer", "yy_flush_buffer",
+                  "yy_scan_buffer", "yy_scan_string", "yy_scan_bytes", "yyensure_buffer_stack", "yypush_buffer_state",
+                  "yypop_buffer_state"]
+
+
+def _balanced(src, i):
+    """src[i] == '{': index just past the matching '}' (string and character literals and comments skipped)"""
+    d = 0
+    j = i
+    n = len(src)
+    while j < n:
+        c = src[j]
+        if src.startswith("/*", j):
+            j = src.index("*/", j) + 2
+            continue
+        if c in "\"'":
+            k = j + 1
+            while src[k] != c:
+                k += 2 if src[k] == "\\" else 1
+            j = k + 1
+            continue
+        if c == "{":
+            d += 1
+        elif c == "}":
+            d -= 1
+            if d == 0:
+                return j + 1
+        j += 1
+    return -1
+
+
+def skeleton_texts(src):
+    import ccanon
+    res = {}
+    for name in SKEL_FUNCTIONS:
+        m = re.search(r"^[ \t]*(?:static\s+)?[A-Za-z_][\w \t\*]*?\b" + name + r"\s*\([^;{]*\)\s*\{", src, re.M)
+        if not m:
+            res[name] = None
+            continue
+        e = _balanced(src, m.end() - 1)
+        res[name] = " ".join(ccanon.tokens(src[m.start():e]))
+    m = re.search(r"#define YY_INPUT\(buf,result,max_size\)(?:[^\n]*\\\n)*[^\n]*\n", src)
+    res["YY_INPUT"] = " ".join(ccanon.tokens(m.group(0).replace("\\\n", " "))) if m else None
+    # the end-of-buffer action of yylex up to the `default:` of the action switch
+    i = src.find("case YY_END_OF_BUFFER:")
+    j = src.find("fatal flex scanner internal error--no action found", i)
+    res["case YY_END_OF_BUFFER"] = " ".join(ccanon.tokens(src[i:j])) if i >= 0 and j > i else None
+    # the matching loop: from yy_match: to the action switch
+    i = src.find("yy_match:")
+    j = src.find("switch ( yy_act )", i)
+    res["yy_match"] = " ".join(ccanon.tokens(src[i:j])) if i >= 0 and j > i else None
+    return res
 
 
 def strip_comments(t):
@@ -217,6 +274,18 @@ def main():
     out.append("Definition skel_rule_setup_sets_bol : bool := %s." % ("true" if bol_ok else "false"))
     out.append("Definition skel_start_state_formula : bool := %s." % ("true" if start_ok else "false"))
     out.append("Definition skel_reentrant : bool := %s." % ("true" if reentrant else "false"))
+    # the buffer machinery of the skeleton (what FlexBuf.v / FlexEngine.v transcribe by hand): token-for-token the
+    # text the transcription was made from (tools/skel_ref/flex_skeleton.json; comments, #line and white space aside)
+    cur = skeleton_texts(src)
+    if "--write-skel-ref" in sys.argv:
+        os.makedirs(os.path.dirname(SKEL_REF), exist_ok=True)
+        with open(SKEL_REF, "w") as fh:
+            json.dump(cur, fh, indent=1, sort_keys=True)
+    ref = json.load(open(SKEL_REF)) if os.path.exists(SKEL_REF) else {}
+    differ = sorted(k for k in set(ref) | set(cur) if ref.get(k) != cur.get(k))
+    for k in differ:
+        out.append("(* skeleton code differs from the transcribed text: %s *)" % k)
+    out.append("Definition skel_buffer_code_as_transcribed : bool := %s." % ("true" if ref and not differ else "false"))
     text = "\n".join(out) + "\n"
     os.makedirs(os.path.dirname(OUT), exist_ok=True)
     old = open(OUT).read() if os.path.exists(OUT) else None
